@@ -74,6 +74,27 @@ theorem late_registration (port : Nat) (u : Option Chains) :
     (limitInstall (limitApply port limitInit u)).pushed = [limitOf port u] := by
   simp [limitInstall, limitApply, limitInit]
 
+/-! ## Which filters of the inbound listener count (S17) -/
+
+/-- bridge: `getLimiterPolicy` reads HTTP connection managers only -/
+theorem facts_limiter : Generated.limiterScope = .httpOnly := by decide
+
+/-- **Thrift-proxy filters do not limit**: whatever Thrift-proxy filters the inbound listener carries, wherever they sit,
+the limit is the one the HTTP connection managers give -/
+theorem thrift_filters_do_not_limit (port : Nat) (fs : List NFilter) :
+    limitOf port (some (chainsOf Generated.limiterScope fs)) =
+      limitOf port (some (chainsOf .httpOnly (fs.filter (fun f => f.kind = .http)))) := by
+  rw [facts_limiter]
+  unfold chainsOf
+  simp [List.filter_filter]
+
+/-- S17 (kept as documentation; repaired by `5ec9d07`): reading every filter that carries an inline route table, a
+Thrift-proxy filter — which always carries one, without port and without bucket — masked the limit of the filter chain
+without a port: the server ran unlimited -/
+theorem s17_thrift_masks_limit :
+    limitOf 9090 (some (chainsOf .all [⟨.http, 0, some 5⟩, ⟨.thrift, 0, some 0⟩])) = none ∧
+    limitOf 9090 (some (chainsOf .httpOnly [⟨.http, 0, some 5⟩, ⟨.thrift, 0, some 0⟩])) = some 5 := by decide
+
 /-! non-vacuity -/
 example : limitOf 8080 (some [(0, some 5), (8080, some 100), (9090, none)]) = some 100 := by decide
 example : limitOf 7070 (some [(0, some 5), (8080, some 100)]) = some 5 := by decide
